@@ -58,6 +58,7 @@ type oneRun struct {
 	exit    int
 	stderr  string
 	resFile string
+	solver  string // "" = default back end; otherwise a cross-check run on another solver
 }
 
 func verifRoot() string {
@@ -81,7 +82,8 @@ func cmdCheck(args []string) int {
 	only := fs.String("only", "", "run only harnesses containing this substring")
 	jobs := fs.Int("j", 0, "parallel engine processes")
 	keep := fs.Bool("keep", false, "keep per-run result files")
-	crossSolver := fs.String("cross", "", "also discharge with this solver (z3-new|cvc5) and compare statuses")
+	crossSolver := fs.String("cross", "", "also run the quick-tier job set on this solver back end (z3-new|cvc5) and compare verdicts")
+	replayFile := fs.String("replay", "", "replay one recorded counterexample natively against the current tree")
 	var prop string
 	if len(args) > 0 && !strings.HasPrefix(args[0], "-") {
 		prop = args[0]
@@ -141,6 +143,29 @@ func cmdCheck(args []string) int {
 			}
 			for _, p := range cfg.Params {
 				runs = append(runs, &oneRun{group: g, harness: h, params: p, cfg: cfg})
+			}
+		}
+	}
+	if *replayFile != "" {
+		rd := filepath.Join(root, "out", prop+"-replay")
+		os.RemoveAll(rd)
+		os.MkdirAll(rd, 0o755)
+		return replayOne(*repo, root, rd, prop, pi, *replayFile)
+	}
+	if *crossSolver != "" {
+		for gi := range pi.Groups {
+			g := &pi.Groups[gi]
+			cfg := g.Quick
+			if len(cfg.Params) == 0 {
+				cfg.Params = []string{""}
+			}
+			for _, h := range g.Harnesses {
+				if *only != "" && !strings.Contains(h, *only) {
+					continue
+				}
+				for _, p := range cfg.Params {
+					runs = append(runs, &oneRun{group: g, harness: h, params: p, cfg: cfg, solver: *crossSolver})
+				}
 			}
 		}
 	}
@@ -245,6 +270,9 @@ func cmdCheck(args []string) int {
 			if r.params != "" {
 				name += "-" + sanitize(r.params)
 			}
+			if v.Alt > 0 {
+				name += fmt.Sprintf("-alt%d", v.Alt)
+			}
 			jobsR = append(jobsR, &replayJob{run: r, v: v, file: filepath.Join(root, "replay", name+".json")})
 		}
 	}
@@ -315,6 +343,17 @@ func cmdCheck(args []string) int {
 	exit := 0
 	violations := 0
 	knownHit := map[string]bool{}
+	// several alternative counterexamples may exist per (run, label): the label counts as
+	// reproduced if any of them replays natively
+	groupKey := func(j *replayJob) string {
+		return fmt.Sprintf("%p/%s/%s/%s", j.run, j.v.Kind, j.v.Label, j.v.Known)
+	}
+	anyRepro := map[string]bool{}
+	for _, j := range jobsR {
+		if !j.sample && j.repro {
+			anyRepro[groupKey(j)] = true
+		}
+	}
 	for _, j := range jobsR {
 		if j.sample {
 			okObs := len(j.wantObs) == len(j.gotObs)
@@ -338,6 +377,8 @@ func cmdCheck(args []string) int {
 		if j.v.Known != "" {
 			if j.repro {
 				knownHit[j.v.Known] = true
+			} else if anyRepro[groupKey(j)] {
+				os.Remove(j.file)
 			} else {
 				fmt.Fprintf(os.Stderr, "[%s] listed finding %s: solver model did not reproduce natively (%s)\n", j.run.harness, j.v.Known, j.out)
 				bad++
@@ -349,6 +390,9 @@ func cmdCheck(args []string) int {
 			fmt.Printf("VIOLATION property=%s replay=%s\n", prop, j.file)
 			fmt.Fprintf(os.Stderr, "  %s [%s] %s -> native: %s\n", j.run.harness, j.v.Kind, j.v.Detail, j.out)
 			exit = 1
+		} else if anyRepro[groupKey(j)] {
+			fmt.Fprintf(os.Stderr, "  note: %s [%s/%s] alternative counterexample %d did not replay natively (%s); another one for this label did\n", j.run.harness, j.v.Kind, j.v.Label, j.v.Alt, j.out)
+			os.Remove(j.file)
 		} else {
 			fmt.Fprintf(os.Stderr, "SPURIOUS: %s [%s/%s] solver model did not reproduce natively: %s (vector %s)\n", j.run.harness, j.v.Kind, j.v.Label, j.out, j.file)
 			bad++
@@ -363,12 +407,54 @@ func cmdCheck(args []string) int {
 			fmt.Printf("KNOWN-FINDING: property=%s %s\n", prop, k.What)
 		}
 	}
+	// ---- second solver: same verdict per (harness, params) where both back ends ran it
+	crossInfo := map[string]interface{}{}
+	if *crossSolver != "" {
+		sig := func(r *oneRun) string {
+			if r.res == nil {
+				return "failed"
+			}
+			var labels []string
+			for _, v := range r.res.Violations {
+				labels = append(labels, v.Kind+"/"+v.Label+"/"+v.Known)
+			}
+			sort.Strings(labels)
+			return r.res.Status + " " + strings.Join(labels, ",")
+		}
+		main := map[string]*oneRun{}
+		for _, r := range runs {
+			if r.solver == "" {
+				main[r.harness+"|"+r.params+"|"+fmt.Sprint(r.cfg.Timeout, r.cfg.MaxPaths)] = r
+			}
+		}
+		nCross, compared, agreed := 0, 0, 0
+		for _, r := range runs {
+			if r.solver == "" {
+				continue
+			}
+			nCross++
+			if m := main[r.harness+"|"+r.params+"|"+fmt.Sprint(r.cfg.Timeout, r.cfg.MaxPaths)]; m != nil {
+				compared++
+				if sig(m) == sig(r) {
+					agreed++
+				} else {
+					fmt.Fprintf(os.Stderr, "SOLVER DISAGREEMENT: %s %s: z3 says %q, %s says %q\n", r.harness, r.params, sig(m), r.solver, sig(r))
+					bad++
+				}
+			}
+		}
+		crossInfo = map[string]interface{}{"solver": *crossSolver, "runs": nCross, "compared_with_primary": compared, "agreed": agreed,
+			"note": "the quick-tier job set re-run with a second SMT back end; every such run must itself be clean, and where the primary back end ran the same job the verdicts (status and violated labels) must be equal"}
+	}
 	if exit == 0 && bad > 0 {
 		exit = 2
 	}
 
 	// ---- evidence
 	ev := buildEvidence(prop, *tier, seed, runs, pi, replayed, violations, knownHit, time.Since(start).Seconds(), *crossSolver)
+	if len(crossInfo) > 0 {
+		ev["cross_check"] = crossInfo
+	}
 	b, _ := json.MarshalIndent(ev, "", " ")
 	os.WriteFile(filepath.Join(root, "evidence", prop+".json"), b, 0o644)
 	if !*keep {
@@ -466,11 +552,21 @@ func writeReplayOverlay(repo, root, outDir, pkg string) (string, error) {
 				continue
 			}
 			src, err := os.ReadFile(target)
-			if err != nil || !strings.Contains(string(src), "sync.Mutex") {
+			if err != nil {
 				continue
 			}
-			out := strings.ReplaceAll(string(src), "sync.Mutex", "verifMutex") + "\nvar _ sync.Once // keeps the import used in the replay build\n"
-			add(target, []byte(out))
+			out := string(src)
+			if strings.Contains(out, "sync.Mutex") {
+				out = strings.ReplaceAll(out, "sync.Mutex", "verifMutex") + "\nvar _ sync.Once // keeps the import used in the replay build\n"
+			}
+			// ... and its reads of the wall clock become reads of the harness clock
+			// (the real clock unless the harness called verifManualClock)
+			if strings.Contains(out, "time.Now()") {
+				out = strings.ReplaceAll(out, "time.Now()", "verifNow()") + "\nvar _ time.Duration // keeps the import used in the replay build\n"
+			}
+			if out != string(src) {
+				add(target, []byte(out))
+			}
 		}
 	}
 	b, _ := json.Marshal(map[string]interface{}{"Replace": repl})
@@ -750,7 +846,7 @@ func runWorker(exe, repo, root, prop, pkg string, jobs chan *oneRun) {
 			to = 120
 		}
 		job := map[string]interface{}{"harness": r.harness, "params": r.params, "out": r.resFile, "timeout": to,
-			"maxpaths": r.cfg.MaxPaths, "maxsteps": r.cfg.MaxSteps, "qtimeout": r.cfg.QTimeout, "nonterm": r.group.NonTerm}
+			"maxpaths": r.cfg.MaxPaths, "maxsteps": r.cfg.MaxSteps, "qtimeout": r.cfg.QTimeout, "nonterm": r.group.NonTerm, "solver": r.solver}
 		b, _ := json.Marshal(job)
 		errBuf.Reset()
 		io.WriteString(stdin, string(b)+"\n")
@@ -780,4 +876,49 @@ func runWorker(exe, repo, root, prop, pkg string, jobs chan *oneRun) {
 			}
 		}
 	}
+}
+
+// replayOne re-runs one recorded counterexample natively against the current tree.
+func replayOne(repo, root, outDir, prop string, pi propIndex, file string) int {
+	data, err := os.ReadFile(file)
+	if err != nil {
+		fmt.Fprintln(os.Stderr, "replay:", err)
+		return 2
+	}
+	var doc struct {
+		Harness string `json:"harness"`
+		Package string `json:"package"`
+		Params  string `json:"params"`
+		Label   string `json:"label"`
+		Kind    string `json:"kind"`
+		Detail  string `json:"detail"`
+	}
+	if err := json.Unmarshal(data, &doc); err != nil || doc.Harness == "" {
+		fmt.Fprintln(os.Stderr, "replay: not a counterexample file:", file)
+		return 2
+	}
+	race := false
+	for _, g := range pi.Groups {
+		if g.Pkg == doc.Package && g.RaceBuild && doc.Kind == "race" {
+			race = true
+		}
+	}
+	ov, err := writeReplayOverlay(repo, root, outDir, doc.Package)
+	if err != nil {
+		fmt.Fprintln(os.Stderr, "replay overlay:", err)
+		return 2
+	}
+	abs, _ := filepath.Abs(file)
+	out, obs := nativeReplay(repo, ov, doc.Package, doc.Harness, doc.Params, abs, race, false)
+	defer os.RemoveAll(outDir)
+	for _, o := range obs {
+		fmt.Println("observed:", o)
+	}
+	fmt.Fprintf(os.Stderr, "%s %s [%s/%s]: native outcome: %s\n", doc.Harness, doc.Params, doc.Kind, doc.Label, out)
+	if reproduces(out, &violation{Label: doc.Label, Kind: doc.Kind, Detail: doc.Detail}) {
+		fmt.Printf("VIOLATION property=%s replay=%s\n", prop, abs)
+		return 1
+	}
+	fmt.Fprintln(os.Stderr, "the recorded counterexample does not reproduce on the current tree")
+	return 0
 }
